@@ -52,7 +52,7 @@ func DrawOpts(r *sim.Rand) Opts {
 	return Opts{
 		CheckpointInterval: int64(r.Pick(1, 2, 2, 3, 3, 7, 1000)),
 		CheckpointMemory:   uint64(r.Pick(0, 0, 0, 1)),
-		HeightFilter:       int8(r.Pick(0, 1)),
+		HeightFilter:       int8(r.Pick(0, 0, 1, 1, 2, 3)), // any value > 0 means: leaves are not kept in memory (seed C19-3A reads it as a real height)
 		EvictionDepth:      int8(r.Pick(-1, 0, 1, 2, 8, 127)),
 		ShardTrees:         r.Chance(1, 2),
 	}
